@@ -1901,7 +1901,8 @@ class Interp:
                     out[-1][1].append(it_)
                 else:
                     out.append((k_, [it_]))
-            return out
+            # each group is an iterator, as in Python: it can be consumed once and cannot be indexed or measured
+            return [(k_, iter(g_)) for k_, g_ in out]
         if d == "functools.partial" and args:
             f0, pre, prek = args[0], list(args[1:]), dict(kwargs)
             return PyFn(lambda I_, a, k: I_.call(f0, pre + list(a), {**prek, **k}), "partial")
